@@ -63,6 +63,10 @@ type Batch struct {
 	// format 0/1 wrappers: inner offsets relative (0..n-1) as brokers >= 0.10
 	// store them for magic 1, or absolute (magic 0).
 	RelativeInner bool `json:"relative_inner,omitempty"`
+	// SparseInner (encode only, with RelativeInner): the relative inner offsets
+	// keep the holes of the records' absolute offsets (offset - first offset),
+	// as the log cleaner writes a compacted format-1 wrapper; default: 0..n-1.
+	SparseInner bool `json:"sparse_inner,omitempty"`
 	// CorruptCRC flips a bit of the checksum (encode only).
 	CorruptCRC bool `json:"corrupt_crc,omitempty"`
 	// Attributes as found on the wire (decode only).
@@ -169,6 +173,9 @@ func (b *Batch) encode(w *Writer) error {
 			off := b.Records[i].Offset
 			if b.RelativeInner {
 				off = int64(i)
+				if b.SparseInner {
+					off = b.Records[i].Offset - b.Records[0].Offset
+				}
 			}
 			encodeMessage(inner, b.Magic, 0, off, &b.Records[i], false)
 		}
